@@ -192,7 +192,24 @@ class Srv:
                     return True
         return False
 
-    def result_err_edge(self, h, after_block, body=None, bk=None):
+    def join_result_edge(self, h, ev, js):
+        """(join event, (switch block, err target, ok target) or None) for the join of the RPC calls `ev` belongs to:
+        the first join in dominance order behind the call; when the fan-out was moved into an async helper, the
+        handler's test of the helper's Result (provided the helper cannot turn a failed join into Ok)."""
+        k, b = h.user
+        cand = [x for x in js if b.dominates(ev.block, x.block)]
+        if not cand:
+            return None, None
+        j = next((x for x in cand if all(b.dominates(x.block, y.block) for y in cand)), cand[0])
+        if j.via:
+            vb = self.fg.bodies[j.via[0]]
+            inner = self.result_err_edge(h, j.via[1], body=vb, bk=j.via[0])
+            if inner and edge_fail_closed(vb, inner[0], inner[1])[0]:
+                return j, self.result_err_edge(h, j.block, any_result=True)
+            return j, None
+        return j, self.result_err_edge(h, j.block)
+
+    def result_err_edge(self, h, after_block, body=None, bk=None, any_result=False):
         """After the block holding a join_all call: the switch on the awaited Result; returns
         (switch block, err target, ok target)."""
         if body is None:
@@ -206,7 +223,7 @@ class Srv:
             for s in blk["s"]:
                 if s["k"] == "assign" and s["r"]["k"] == "discr" and t["o"]["k"] != "const" and s["p"]["l"] == t["o"]["p"]["l"]:
                     ty = s["r"]["p"].get("ty", "")
-                    if ty.startswith("core::result::Result<alloc::vec::Vec<"):
+                    if ty.startswith("core::result::Result<alloc::vec::Vec<") or (any_result and ty.startswith("core::result::Result<")):
                         tm = {v: tb for v, tb in t["ts"]}
                         err = tm.get("1")
                         ok = tm.get("0", t["else"])
@@ -1464,8 +1481,7 @@ class Srv:
                 v = h.events_in(reg, K("set_state", "Validated"))
                 ro = h.events_in(reg, K("reply_ok", "ScheduleError"))
                 if cv and js and v:
-                    j = [x for x in js if b.dominates(cv[0].block, x.block)][0]
-                    ee = self.result_err_edge(h, j.block)
+                    j, ee = self.join_result_edge(h, cv[0], js)
                     if not ee:
                         res.bad("R9.compat", "schedule|leader|validate-join", "cannot find the test of the joined validate results", fl(j.sp))
                     else:
@@ -1620,6 +1636,14 @@ class Srv:
             if any(n.endswith("Policy::other_parties") for n in callee_names(t)) and b.dominates(bi, ev.block):
                 # its result must flow into Iterator::map whose closure is the RPC closure
                 found = True
+        if not found and ev.via:
+            # the fan-out was moved into an async helper: the iteration is in the helper's future
+            vb = self.fg.bodies[ev.via[0]]
+            fam_ = [bb for bb in self.fg.bodies.values() if bb.owner == vb.owner and (bb.j.get("reowned_from") == vb.j.get("reowned_from") or bb is vb)]
+            for bb in fam_:
+                for bi, t in bb.calls():
+                    if any(n.endswith("Policy::other_parties") for n in callee_names(t)) and bi in bb.live_blocks():
+                        found = True
         if found:
             res.ok("R9.fanout", "%s|%s" % (h.name, what), fl(ev.sp), "%s requests are mapped over policy.other_parties()" % what)
         else:
@@ -1667,8 +1691,7 @@ class Srv:
                 cr = h.events_in(self.dom_region(h, lead), K("client", "run"))
                 js = sorted(h.events_in(self.dom_region(h, lead), K("join_all")), key=lambda e: e.block)
                 if cr and js:
-                    j = [x for x in js if b.dominates(cr[0].block, x.block)]
-                    ee = self.result_err_edge(h, j[0].block) if j else None
+                    j, ee = self.join_result_edge(h, cr[0], js)
                     if not ee:
                         res.bad("R9.rpc", "schedule|run", "cannot find the test of the joined run results", fl(cr[0].sp))
                     else:
@@ -1676,8 +1699,7 @@ class Srv:
                     self.fanout_all_parties(h, cr[0], "run")
                 cv = h.events_in(self.dom_region(h, lead), K("client", "validate"))
                 if cv and js:
-                    j = [x for x in js if b.dominates(cv[0].block, x.block)]
-                    ee = self.result_err_edge(h, j[0].block) if j else None
+                    j, ee = self.join_result_edge(h, cv[0], js)
                     if ee:
                         sb, err_t, ok_t = ee
                         if h.every_path_hits(err_t, self.blocks(h, K("flow", "Break"))) and not h.events_in(b.reachable_from(err_t), lambda x: x.kind in ("set_state", "self_cmd", "acquire")):
